@@ -152,7 +152,7 @@ Definition b_dstep (s : pairs) (op : dop) : pairs * res pyval :=
   | DOr src =>
       if ds_isdict src then (s, Ok (PDict 0 (upd s (ds_items s src))))
       else match src with
-           | DSPairs _ => (s, Err EType)
+           | DSPairs _ | DSIter _ => (s, Err EType)     (* not a mapping: TypeError *)
            | _ => (s, Unmodelled)      (* other mappings answer through their own __ror__ *)
            end
   | DNew src =>                         (* dict(src): a dict argument is cloned, anything else is a run of assignments *)
